@@ -521,6 +521,19 @@ def essential_changes(body, cfg_prefixes, extra_fields):
     return out
 
 
+def _without_annotations(essence, prefix):
+    e = copy.deepcopy(essence)
+    ann = (e.get('metadata') or {}).get('annotations')
+    if isinstance(ann, dict):
+        for k in [k for k in ann if k.startswith(prefix + '/')]:
+            del ann[k]
+        if not ann:
+            del e['metadata']['annotations']
+            if not e['metadata']:
+                del e['metadata']
+    return e
+
+
 def _passes_non_mapping(body, path):
     """The path meets a present value that is not a mapping before its last step."""
     d = body
@@ -545,7 +558,7 @@ def _e1_bodies(b, cfg, other):
                 yield with_annotations(base_body(spec, status, labels, data, sysmeta), kinds, cfg, other), kinds
     else:
         for i, kinds in enumerate(subsets):
-            for r in range(2):
+            for r in range(2 if len(kinds) <= 1 else 1):
                 j = 2 * i + r
                 base = base_body(SPECS[j % len(SPECS)], STATUSES[(j // 2) % len(STATUSES)], LABELS[j % len(LABELS)],
                                  DATAS[(j // 3) % len(DATAS)], SYSMETA[(j + r) % len(SYSMETA)])
@@ -606,11 +619,18 @@ def E1(b):
                 ctx = dict(config=cfg.name, extra_fields=[list(x) for x in extra])
 
                 def invisible(clause, label, body2, excuse=None, who=None):
+                    if any(not same(resolve_ref(body2, path), resolve_ref(body, path)) for path in extra):
+                        return      # the write changed a field some handler declared interest in: it is meant to count
                     b.case(key=None, nontrivial=body2 != body)
                     e1 = essence_of(cfg, body2, extra)
-                    b.check(clause, same(e0, e1),
+                    ok = same(e0, e1)
+                    if not ok and excuse is not None:
+                        # the excused class: the essences differ ONLY in annotations under the unmarked `kopf.*` prefix
+                        if not same(_without_annotations(e0, excuse[1]), _without_annotations(e1, excuse[1])):
+                            excuse = None
+                    b.check(clause, ok,
                             lambda: dict(ctx, write=label, by=who, body=body, after=body2, essence_before=e0, essence_after=e1),
-                            excuse=excuse)
+                            excuse=excuse[0] if excuse else None)
                 # -- own storage writes
                 for label, patch in storage_writes(cfg, body, extra):
                     invisible('own_storage_writes_invisible', label, apply_merge_patch(body, patch), who=cfg.name)
@@ -618,11 +638,11 @@ def E1(b):
                 for label, body2 in system_writes(body):
                     invisible('system_writes_invisible', label, body2)
                 # -- another Kopf-based operator's writes
-                for oth in (others if b.thorough or bi % 4 == 0 else [primary_other]):
+                for oth in (others if b.thorough or bi % 8 == 0 else [primary_other]):
                     unmarked = oth.prefix.startswith('kopf.') and oth.prefix != 'kopf.zalando.org' and bool(oth.annotation_prefixes)
                     for label, patch in storage_writes(oth, body, ()):
                         invisible('other_operator_writes_invisible', label, apply_merge_patch(body, patch),
-                                  excuse=F1 if unmarked else None, who=oth.name)
+                                  excuse=(F1, oth.prefix) if unmarked else None, who=oth.name)
                 # -- the stored essence is a fixpoint of the detector
                 from kopf._cogs.structs import patches
                 patch = patches.Patch()
